@@ -103,6 +103,12 @@ def verify(contract, callee_contracts=None, spec_functions=None, options=None):
     for k, ls in contract.loops.items(): ex.loop_specs[(contract.qualname, k)] = ls
     st = State(); st.frames = [Frame(mod, cls, {})]
     contract.setup(ex, st)                   # binds params in st.frames[-1].env, builds heap
+    # parameters the setup leaves unbound take the default written in the current source (so that a changed default is seen)
+    a = fn.args; names = [x.arg for x in a.args]
+    for i, nme in enumerate(names):
+        di = i - (len(names) - len(a.defaults))
+        if nme not in st.frames[-1].env and di >= 0:
+            st.frames[-1].env[nme] = ex.const_eval(mod, a.defaults[di])
     stmts = {ast.unparse(n) for n in ast.walk(fn) if isinstance(n, ast.stmt) and not isinstance(n, (ast.If, ast.For, ast.While, ast.Try, ast.FunctionDef))}
     for text in list(ex.stmt_hooks) + list(ex.stmt_hooks_before):
         if text not in stmts and text not in getattr(ex, "hooks_optional", ()):
